@@ -4,7 +4,7 @@ from .gea import Seq, Alt
 from .interp import Events, normal_cfg, language
 from .lang import Roles, cast_is_value_preserving
 from .origin import Origins, show, walk
-from . import p_c01, p_c06, p_c13
+from . import p_c01, p_c06, p_c13, p_c03
 
 LEVEL = "other"
 EXPLANATION = (
@@ -78,4 +78,5 @@ RULES = [
     ("C14.UNICODE", "checked conversion floor -> low limb -> char::from_u32", p_c13.rule_unicode),
     ("C14.ISPOS", "the sign test that selects character output counts zero as non-negative", p_c06.rule_arith),
     ("C14.CONV", "no narrowing integer conversion on the text path", rule_conv),
+    ("C14.EMITTED", "the emitted Stack::pop / push (both variants): same refill, EOF and output conversion rules", p_c03.rule_stack),
 ]
